@@ -58,6 +58,44 @@ func c04LongTerm(cr []string) (string, string) {
 	return "", ""
 }
 
+// c04KeyBuffer: sign with K1 held in a buffer, overwrite the buffer with K2 (same length), then check and sign again.
+func c04KeyBuffer(kl int) (key, detail string) {
+	p := catch(func() {
+		for round := 0; round < 4; round++ {
+			buf := make([]byte, kl)
+			k1 := patBytes(kl, 1+round)
+			k2 := patBytes(kl, 50+round)
+			copy(buf, k1)
+			m := stun.MustBuild(stun.BindingRequest, stun.NewTransactionIDSetter([12]byte{byte(round)}), stun.NewUsername("u"))
+			if err := stun.MessageIntegrity(buf).AddTo(m); err != nil {
+				key, detail = "key-buffer", "AddTo: "+err.Error()
+				return
+			}
+			copy(buf, k2) // the caller reuses its buffer for another user's key
+			d := &stun.Message{Raw: exactSlice(m.Raw, 40)}
+			_ = d.Decode()
+			if err := stun.MessageIntegrity(buf).Check(d); err == nil {
+				key, detail = "key-buffer", fmt.Sprintf("a message signed with key %x verifies under key %x after the caller rewrote its %d-byte key buffer in place", clip(k1), clip(k2), kl)
+				return
+			}
+			if err := stun.MessageIntegrity(k1).Check(d); err != nil {
+				key, detail = "key-buffer", fmt.Sprintf("the message no longer verifies under the key it was signed with (%d-byte key): %v", kl, err)
+				return
+			}
+			m2 := stun.MustBuild(stun.BindingRequest, stun.NewTransactionIDSetter([12]byte{byte(round), 1}), stun.NewUsername("u"))
+			_ = stun.MessageIntegrity(buf).AddTo(m2) // buf holds k2 now
+			if ok, _ := refIntegrity(m2.Raw, k2); !ok {
+				key, detail = "key-buffer", fmt.Sprintf("AddTo with a %d-byte key buffer that was rewritten in place produced a MAC that is not HMAC(current key)", kl)
+				return
+			}
+		}
+	})
+	if p != "" {
+		return "key-buffer", p
+	}
+	return
+}
+
 func c04Refuse(before []byte, key []byte) (string, string) {
 	m := &stun.Message{Raw: exactSlice(before, 64)}
 	if err := m.Decode(); err != nil {
@@ -309,6 +347,17 @@ func init() {
 					c.Outcome("refused-after-fingerprint")
 				}
 			}
+			// the caller's key buffer is rewritten in place between two operations: every operation must use the key
+			// bytes it is given at that moment
+			if c.Shard == 0 {
+				for _, kl := range []int{16, 20, 64, 65, 100} {
+					c.Eval(1)
+					if k, d := c04KeyBuffer(kl); k != "" {
+						c.Violation(k, d, c04Case{Kind: "keybuf", Key: fmt.Sprint(kl)})
+					}
+					c.Outcome("key-buffer-reuse")
+				}
+			}
 			// one long chain: 8 attributes before, 4 after
 			if c.Shard == 0 {
 				m := new(stun.Message)
@@ -345,6 +394,13 @@ func init() {
 				return
 			case "refuse":
 				if kk, d := c04Refuse(raw, key); kk != "" {
+					c.Violation(kk, d, k)
+				}
+				return
+			case "keybuf":
+				var kl int
+				fmt.Sscan(k.Key, &kl)
+				if kk, d := c04KeyBuffer(kl); kk != "" {
 					c.Violation(kk, d, k)
 				}
 				return
